@@ -301,7 +301,38 @@ where
     let req2 = R::try_from_http_request(http1.clone(), &args).map_err(|e| format!("the receiving side rejects the encoded request: {e}; uri {} body {:?}; original {req:?}", http1.uri(), String::from_utf8_lossy(http1.body())))?;
     let http2 = req2.clone().try_into_http_request::<Vec<u8>>("https://hs.example", SendAccessToken::IfRequired("tok"), versions).map_err(|e| format!("re-encoding the received request failed: {e}"))?;
     http_eq(&http1, &http2).map_err(|e| format!("re-encoding the received request gives a different HTTP message: {e}; original {req:?}, received {req2:?}"))?;
+    // the JSON body written differently (key order, escaped spellings, whitespace) is the same message
+    if let Some((body3, value)) = respelled_body(http1.headers(), http1.body()) {
+        let mut b = http::Request::builder().method(http1.method().clone()).uri(http1.uri().clone());
+        for (k, v) in http1.headers() {
+            b = b.header(k, v);
+        }
+        let http3 = b.body(body3.clone()).map_err(|e| e.to_string())?;
+        let req3 = R::try_from_http_request(http3, &args).map_err(|e| format!("the receiving side rejects the request when its JSON body is spelled differently: {e}; body {:?} (sent as {:?})", String::from_utf8_lossy(&body3), String::from_utf8_lossy(http1.body())))?;
+        let http4 = req3.try_into_http_request::<Vec<u8>>("https://hs.example", SendAccessToken::IfRequired("tok"), versions).map_err(|e| format!("re-encoding failed: {e}"))?;
+        let again: Option<serde_json::Value> = serde_json::from_slice(http4.body()).ok();
+        if http4.uri() != http1.uri() || again.as_ref() != Some(&value) {
+            return Err(format!("the received request depends on how the JSON body is spelled: body {:?} decodes to a request that re-encodes as {:?}, sent {:?}", String::from_utf8_lossy(&body3), String::from_utf8_lossy(http4.body()), String::from_utf8_lossy(http1.body())));
+        }
+        cx.class("json_body_respelled");
+    }
     Ok(Some((req2, http1)))
+}
+
+/// For a JSON body: the same value as different text, plus the value.
+fn respelled_body(headers: &http::HeaderMap, body: &[u8]) -> Option<(Vec<u8>, serde_json::Value)> {
+    let is_json = headers.get(http::header::CONTENT_TYPE).is_some_and(|v| v.as_bytes().starts_with(b"application/json"));
+    if !is_json || body.is_empty() {
+        return None;
+    }
+    let value: serde_json::Value = serde_json::from_slice(body).ok()?;
+    if !value.is_object() && !value.is_array() {
+        return None;
+    }
+    let h = vf_engine::fnv(body);
+    let text = vf_ref::respell::respell(&value, (h >> 8) as u8, (h % 15) as u8 + 1, &mut 0);
+    // only when serde_json agrees that it is the same value (numbers are kept as written)
+    (serde_json::from_str::<serde_json::Value>(&text).ok().as_ref() == Some(&value)).then(|| (text.into_bytes(), value))
 }
 
 pub fn response_roundtrip<R>(resp: R, cx: &mut CaseCtx) -> Result<Option<R>, String>
@@ -328,6 +359,14 @@ where
     let h = |r: &http::HeaderMap| r.iter().map(|(k, v)| (k.as_str().to_owned(), v.as_bytes().to_vec())).collect::<BTreeMap<_, _>>();
     if http2.status() != parts.status || h(http2.headers()) != h(&parts.headers) || *http2.body() != body {
         return Err(format!("re-encoding the received response gives a different HTTP message; original {resp:?}, received {resp2:?}"));
+    }
+    if let Some((body3, value)) = respelled_body(&parts.headers, &body) {
+        let resp3 = R::try_from_http_response(rebuilt(body3.clone())).map_err(|e| format!("the receiving side rejects the response when its JSON body is spelled differently: {e}; body {:?}", String::from_utf8_lossy(&body3)))?;
+        let http4 = resp3.try_into_http_response::<Vec<u8>>().map_err(|e| format!("re-encoding failed: {e}"))?;
+        if serde_json::from_slice::<serde_json::Value>(http4.body()).ok().as_ref() != Some(&value) {
+            return Err(format!("the received response depends on how the JSON body is spelled: {:?} re-encodes as {:?}", String::from_utf8_lossy(&body3), String::from_utf8_lossy(http4.body())));
+        }
+        cx.class("json_body_respelled");
     }
     Ok(Some(resp2))
 }
@@ -1084,7 +1123,7 @@ pub fn run(ck: &mut Check) {
     }
     let n = ck.n(300_000, 4_000_000);
     ck.prop("synthetic_endpoints", n, synth_case, synth_oracle);
-    for cls in ["synthetic_request_roundtrip", "reserved_char_in_field", "percent_in_field", "empty_multi_valued_query", "multi_valued_query", "non_200_success_status"] {
+    for cls in ["synthetic_request_roundtrip", "reserved_char_in_field", "percent_in_field", "empty_multi_valued_query", "multi_valued_query", "non_200_success_status", "json_body_respelled"] {
         ck.floor("synthetic_endpoints", cls, 2000);
     }
     let n = ck.n(150_000, 2_000_000);
